@@ -371,3 +371,107 @@ func init() {
 	register("C07", Rule{"R07e", ruleNoFlatteningThroughBuilder})
 	register("C01", Rule{"R07e", ruleNoFlatteningThroughBuilder})
 }
+
+// R07f: the last element of an unordered enumeration decides nothing.  In a loop driven by MoveNext() of an
+// enumerator, a loop-carried variable that is *overwritten* from the current element on every iteration (its new
+// value does not depend on its old one) and is read after the loop holds whatever the hash order enumerated last.
+// Accumulations (x = x && f(e), n += …, append, builders) are independent of the order; overwrites are not.
+func ruleNoLastElementWins(p *Program, r *Report) {
+	r.Begin("R07f", "no last-element-wins: in every loop over an enumerator (MoveNext / Current) in the module, a loop-carried variable whose per-iteration value is computed from the current element without depending on its own previous value is not read after the loop — such a value is decided by whichever element the hash order yields last (a flag that should have been accumulated with && or an early exit)", 0)
+	defer r.End()
+	n := 0
+	for _, fn := range p.RepoFns {
+		// loop headers: blocks ending in If on a MoveNext() result
+		for _, hb := range fn.Blocks {
+			cond := IfCond(hb)
+			if cond == nil {
+				continue
+			}
+			mv, ok := cond.(*ssa.Call)
+			if !ok || !mv.Call.IsInvoke() || mv.Call.Method.Name() != "MoveNext" {
+				continue
+			}
+			// an ordered enumerator is fine: ArrayEnumerator / OrderedValues / slices
+			ordered := DependsOn(mv.Call.Value, func(x ssa.Value) bool {
+				c, ok := x.(*ssa.Call)
+				if !ok {
+					return false
+				}
+				name := ""
+				if c.Call.IsInvoke() {
+					name = c.Call.Method.Name()
+				} else if g := c.Call.StaticCallee(); g != nil {
+					name = g.Name()
+				}
+				return strings.Contains(name, "Ordered") || strings.Contains(name, "ArrayEnumerator")
+			})
+			if ordered {
+				continue
+			}
+			body := hb.Succs[0]
+			inLoop := func(b *ssa.BasicBlock) bool {
+				return b == hb || ((b == body || Reaches(body, b, false)) && Reaches(b, hb, false))
+			}
+			if !Reaches(body, hb, false) && body != hb {
+				continue
+			}
+			for _, ins := range hb.Instrs {
+				ph, ok := ins.(*ssa.Phi)
+				if !ok {
+					continue
+				}
+				for i, e := range ph.Edges {
+					pred := hb.Preds[i]
+					if !inLoop(pred) || e == ssa.Value(ph) {
+						continue
+					}
+					// the back-edge value: from the current element, and not from the variable's own previous value
+					fromCur := DependsOn(e, func(x ssa.Value) bool {
+						c, ok := x.(*ssa.Call)
+						return ok && c.Call.IsInvoke() && c.Call.Method.Name() == "Current"
+					})
+					accum := DependsOn(e, func(x ssa.Value) bool { return x == ssa.Value(ph) })
+					if !accum {
+						// assigned only under a test of its own previous value ("exactly one" checks: error if already set)
+						pdF := NewPostDom(fn)
+						for _, cd := range pdF.TransitiveControlDeps(pred) {
+							if c2 := IfCond(cd.Br); c2 != nil && c2 != cond && DependsOn(c2, func(x ssa.Value) bool { return x == ssa.Value(ph) }) {
+								accum = true
+							}
+						}
+					}
+					if !fromCur || accum {
+						continue
+					}
+					// read after the loop?
+					usedAfter := false
+					if ph.Referrers() != nil {
+						for _, ref := range *ph.Referrers() {
+							if _, isDbg := ref.(*ssa.DebugRef); isDbg {
+								continue
+							}
+							if !inLoop(ref.Block()) {
+								usedAfter = true
+							}
+						}
+					}
+					if !usedAfter {
+						continue
+					}
+					n++
+					r.Fn(FnName(fn))
+					name := ph.Comment
+					if name == "" {
+						name = "a variable"
+					}
+					r.Viol(fmt.Sprintf("last-wins@%s#%s", FnName(fn), name), fmt.Sprintf("%s overwrites %s from the current element on every iteration of a loop over an unordered enumerator and reads it after the loop: the result is decided by the element the per-process hash order yields last", FnName(fn), name), ph.Pos())
+				}
+			}
+		}
+	}
+	if n == 0 {
+		r.OK("last-wins", "no loop over an enumerator keeps only its last element", 0)
+	}
+}
+
+func init() { register("C07", Rule{"R07f", ruleNoLastElementWins}) }
